@@ -46,6 +46,7 @@ def main():
         print('unit suite with change:', 'PASS' if ok else 'FAIL')
         if not ok:
             print(r.stdout[-1200:]); return 3
+        run(['make', '-C', clean])   # some demonstrations need generated sources (base64u.c)
         demo = os.path.join(src, 'demo.sh')
         if os.path.exists(demo):
             r1 = run(['sh', demo, mut], cwd=src)
